@@ -21,7 +21,7 @@ def _filter_dead_code(nodes: Iterable[ast.stmt]) -> list[ast.stmt]:
     return new_nodes
 
 
-def _needs_eq_operator(arg: ast.expr) -> bool:
+def _is_non_singleton_constant(arg: ast.expr) -> bool:
     return isinstance(arg, ast.Constant) and all(
         arg.value is not v for v in (True, False, None, ...)
     )
@@ -87,21 +87,26 @@ def _optimize_operator_call_attr(  # pylint: disable=too-many-return-statements
             return ast.Compare(arg1, [compareop()], [arg2])
 
         isop = {
-            "is_": (ast.Is, ast.Eq),
-            "is_not": (ast.IsNot, ast.NotEq),
+            "is_": ast.Is,
+            "is_not": ast.IsNot,
         }.get(fn.attr)
         if isop is not None:
-            isoper, eqoper = isop
             arg1, arg2 = node.args
             assert len(node.args) == 2
-            oper = (
-                eqoper if any(_needs_eq_operator(arg) for arg in node.args) else isoper
-            )
-            return ast.Compare(arg1, [oper()], [arg2])
+            # Python warns about identity comparisons with literals other than the
+            # singletons, but replacing the comparison with an equality check would
+            # change its meaning (`1 == 1.0`), so such calls are left as they are
+            if any(_is_non_singleton_constant(arg) for arg in node.args):
+                return node
+            return ast.Compare(arg1, [isop()], [arg2])
 
         if fn.attr == "contains":
             arg1, arg2 = node.args
             assert len(node.args) == 2
+            # The `in` operator takes its operands in the opposite order, so they would
+            # be evaluated in the opposite order as well
+            if not all(isinstance(arg, (ast.Constant, ast.Name)) for arg in node.args):
+                return node
             return ast.Compare(arg2, [ast.In()], [arg1])
 
         if fn.attr == "delitem":
